@@ -358,7 +358,7 @@ class CallMixin(ExprMixin):
             obj = st.alloc(ObjMeta("object", cv, t), {})
             later = []
             for fn_, ft in sh.fields.items():
-                if "gen:" in ft:
+                if "gen:" in ft or "viewof:" in ft:
                     later.append((fn_, ft))
                     continue
                 st.heap[obj.oid][mangle(cname, fn_)] = self.make_symbolic(st, ft, f"{name}_{fn_.lstrip('_')}")
@@ -373,6 +373,11 @@ class CallMixin(ExprMixin):
         t = t.strip()
         if t.startswith("opt["):
             return Opt(smt.fresh(name + "_isnone", smt.Bo), self.make_symbolic_gen(st, t[4:-1], name, owner, cname))
+        if t.startswith("viewof:"):
+            b = st.heap[owner.oid][mangle(cname, t[7:])]
+            if isinstance(b, Opt):
+                b = b.val
+            return View(b, smt.fresh(name + "_lo", smt.I), smt.fresh(name + "_hi", smt.I))
         assert t.startswith("gen:")
         spec, _, rest = t[4:].partition("@")
         recv_field, _, argpart = rest.partition("(")
@@ -456,7 +461,11 @@ class CallMixin(ExprMixin):
         if cur is None:
             t = self.declared_field_type(base, node.attr, attr)
             if t is not None:
-                st.set(base, attr, self.make_symbolic(st, t, attr.strip("_")))
+                if "gen:" in t or "viewof:" in t:
+                    cls = META[base.oid].cls
+                    st.set(base, attr, self.make_symbolic_gen(st, t, attr.strip("_"), base, cls.ci.name))
+                else:
+                    st.set(base, attr, self.make_symbolic(st, t, attr.strip("_")))
                 return
         st.set(base, attr, self.havoc_like(st, cur, attr, path))
 
@@ -504,6 +513,20 @@ class CallMixin(ExprMixin):
             return cur
         raise EngineError(f"cannot havoc {label}: {cur!r}")
 
+    def make_result(self, st: State, c: Contract, sctx: Ctx) -> Any:
+        """Fresh result of the declared type; `viewof:<expr>` gives a memoryview into the (post-state) buffer <expr>."""
+        t = c.result.strip()
+        if t.startswith("viewof:"):
+            b = self.eval1(ast.parse(t[7:], mode="eval").body, st, sctx)
+            if isinstance(b, Opt):
+                b = b.val
+            if isinstance(b, View):
+                b = b.base
+            if not (isinstance(b, Ref) and META[b.oid].kind == "bytebuf"):
+                raise EngineError(f"{c.key}: result type {t}: not a buffer object")
+            return View(b, smt.fresh("ret_lo", smt.I), smt.fresh("ret_hi", smt.I))
+        return self.make_symbolic(st, t, "ret")
+
     def populate_exc(self, st: State, exc: Ref, cname: str, c: Contract) -> None:
         fields = c.exc_fields.get(cname)
         if fields is None and cname in self.R.shapes:
@@ -512,37 +535,44 @@ class CallMixin(ExprMixin):
             st.heap[exc.oid][fn_] = self.make_symbolic(st, ft, f"exc_{fn_}")
 
     def apply_contract(self, st: State, ctx: Ctx, fi: FuncInfo, c: Contract, args: list, kwargs: dict, line: int):
+        args = [self.strip_opt(st, a) for a in args]
         frame = self.new_frame(st, None, "contract:" + fi.qualname)
         self.bind_params(st, ctx, fi, frame, args, kwargs, None)
-        for g, init in c.ghost.items():
-            pass
         sctx = self.spec_ctx(fi, frame, None, {})
         # requires
         for cl in c.requires:
             self.oblige(st, self.eval_clause(cl, st, sctx), "call-pre", line, f"{fi.qualname}:{cl.name}", cl.tags)
             st.assume(self.eval_clause(cl, st, sctx))
+        ghosts: dict[str, Any] = {}
+        for g, init in c.ghost.items():
+            gctx = self.spec_ctx(fi, frame, None, ghosts)
+            ghosts[g] = ops.lift(self.eval1(ast.parse(init, mode="eval").body, st, gctx))
         old = st.clone()
-        sctx = self.spec_ctx(fi, frame, (old, frame), {})
+        sctx = self.spec_ctx(fi, frame, (old, frame), ghosts)
         for p in c.modifies:
             self.havoc_path(st, sctx, p)
         results: list[tuple[State, Any]] = []
+        live_before = self.feasible(st)
         # exceptional outcomes
         for cname, clauses in c.raises.items():
             s2 = st.clone()
             cls = self.class_by_name(cname)
             exc = self.make_exc(s2, cls, ())
             self.populate_exc(s2, exc, cname, c)
-            ectx = self.spec_ctx(fi, frame, (old, frame), {"exc": exc})
+            ectx = self.spec_ctx(fi, frame, (old, frame), {**ghosts, "exc": exc})
             for cl in clauses:
                 s2.assume(self.eval_clause(cl, s2, ectx))
             if self.feasible(s2):
                 results.append((s2, Raise(exc)))
         # normal outcome
         if c.ensures or "$noreturn" not in c.env:
-            res = self.make_symbolic(st, c.result, "ret")
-            nctx = self.spec_ctx(fi, frame, (old, frame), {"result": res})
+            res = self.make_result(st, c, sctx)
+            nctx = self.spec_ctx(fi, frame, (old, frame), {**ghosts, "result": res})
             for cl in c.ensures:
                 st.assume(self.eval_clause(cl, st, nctx))
             if self.feasible(st):
                 results.append((st, res))
+        if not results and live_before and self.recording:
+            raise EngineError(f"{ctx.func.key()}:{line}: applying the contract of {c.key} leaves no feasible outcome "
+                              f"(contradictory postcondition or wrong result shape)")
         return results
